@@ -829,6 +829,7 @@ func doCheck(prop *Property, tier string, seed uint64, runsOverride int, only st
 	knownSeen := map[string]bool{}
 	newSeen := map[string]bool{}
 	nViol := 0
+	var infraMsgs []string
 	var violOut []map[string]any
 	for _, hr := range results {
 		sort.Slice(hr.viol, func(i, j int) bool {
@@ -851,7 +852,10 @@ func doCheck(prop *Property, tier string, seed uint64, runsOverride int, only st
 				continue
 			}
 			if v.Class == "infra" {
-				infra("harness %s reported: %s", hr.h.Name, v.Detail)
+				// a problem of the machinery in one run: never a verdict. It ends the check with exit 2 unless other runs
+				// found violations of the property (those are reported, the problem is mentioned)
+				infraMsgs = append(infraMsgs, fmt.Sprintf("harness %s reported: %s", hr.h.Name, v.Detail))
+				continue
 			}
 			nViol++
 			if !newSeen[key] {
@@ -862,6 +866,13 @@ func doCheck(prop *Property, tier string, seed uint64, runsOverride int, only st
 				exit = 1
 			}
 		}
+	}
+
+	if len(infraMsgs) > 0 {
+		if exit != 1 {
+			infra("%s", infraMsgs[0])
+		}
+		fmt.Printf("NOTE: besides the violations above, %d run(s) reported an infrastructure problem, e.g. %s\n", len(infraMsgs), firstLines(infraMsgs[0], 2))
 	}
 
 	// evidence
